@@ -63,6 +63,7 @@ type C02Case struct {
 	Tree    []*TNode   `json:"tree"`
 	Source  string     `json:"source"`
 	EnvOnly bool       `json:"env_only,omitempty"`
+	Prelude []string   `json:"prelude,omitempty"` // earlier activity of this process: sources rendered (on another engine) before the canonical execution
 	Prefix  *C02Prefix `json:"process_history,omitempty"`
 	A       *C02Exec   `json:"exec_a,omitempty"` // the two executions that disagree
 	B       *C02Exec   `json:"exec_b,omitempty"`
@@ -128,8 +129,19 @@ func genC02(r *Rng, idx int) *C02Case {
 			g.ArrEmphasis = true
 		}
 		cs.Tree = g.Template(cs.Env)
+		if r.Chance(0.08) {
+			cs.Tree = g.Sweep(cs.Env, pickFocus(r.Fork(5)), r.Range(5, 12))
+		}
 	}
 	cs.Source = Source(cs.Tree)
+	if !cs.EnvOnly {
+		// earlier activity for the fresh-process dimension: the same inputs and filters
+		// with other argument values, rendered on another engine before the canonical run
+		sg := NewGen(r.Fork(3), 0)
+		for i, n := 0, r.Range(1, 3); i < n; i++ {
+			cs.Prelude = append(cs.Prelude, Source(sg.Sibling(cs.Tree, cs.Env)))
+		}
+	}
 	return cs
 }
 
@@ -340,6 +352,14 @@ var cliPath string
 func c02Find(c *Ctx, cs *C02Case, r *Rng, out *CaseOut, wantSig string) []c02Fail {
 	x := newC02Run(cs, cliPath)
 	canon, vars := c02Plan(r, cs)
+	if len(cs.Prelude) > 0 {
+		pe := NewEngine(cs.Cfg)
+		simrt.SetMapOrder(simrt.OrderAsc, 0)
+		simrt.SetClock(t0)
+		for _, src := range cs.Prelude {
+			Run(EPParseAndRender, pe, nil, src, x.b0, nil)
+		}
+	}
 	base := x.exec(canon)
 	if c != nil {
 		c.logf("canon: %s", addrRe.ReplaceAllString(base.Key(), "0xADDR"))
